@@ -1216,6 +1216,40 @@ func (w *World) opDiffLinks(op *Op) {
 				return
 			}
 		}
+		// a replica: the new version is opened on another store that holds the same nodes (a copy),
+		// the old one on this store, each through its own cold cache. Equal names are equal nodes
+		// whichever store they came from: common subtrees are still skipped unread.
+		if va != nil {
+			replica := disk.Snapshot("sim://replica-of-" + disk.NodeURLPrefix())
+			oldM, r1 := w.loadRoot(va.root, d, mast.NewNodeCache(256), nil)
+			newM, r2 := w.loadRoot(vb.root, d, mast.NewNodeCache(256), replica)
+			if r1.bad() || r2.bad() {
+				w.failFor("C05", "reload-fails", "LoadMast: %s %s", r1, r2)
+				return
+			}
+			disk.BeginCall()
+			replica.BeginCall()
+			rr = guard(func() error {
+				return newM.DiffIter(ctx, oldM, func(a, r bool, k, av, rv interface{}) (bool, error) { return true, nil })
+			})
+			l1, _, _, _ := disk.Window()
+			l2, _, _, _ := replica.Window()
+			if rr.bad() {
+				w.failFor("C06", "diffiter-fails/"+rel, "DiffIter(%s, new side on a replica store): %s", rel, rr)
+				return
+			}
+			w.st.Probes["diff-cost-across-replica-stores-with-caches"]++
+			both := map[string]bool{}
+			for _, n := range l1 {
+				both[n] = true
+			}
+			for _, n := range l2 {
+				both[n] = true
+			}
+			if tooMuch("diffiter", "/replica-store-with-caches", len(both)) {
+				return
+			}
+		}
 		// mixed provenance: one side opened through the world's shared cache (which may hold node
 		// objects this process wrote), the other cache-less. A cache can only save reads, so the
 		// same bound applies to what reaches the store.
